@@ -201,11 +201,11 @@ def run(res, a):
         # round trip of the exported text
         if o.get("strerr"):
             viol.append(("export", "ExportString fails for %r" % s, s))
-        elif o.get("reerr") or (o["retype"], o["rebits"], o["re"]) != (o["type"], o["bits"], o["bin"]):
+        elif o.get("reerr") or (o.get("retype"), o.get("rebits"), o.get("re")) != (o["type"], o["bits"], o["bin"]):
             key = None
-            if o["type"] == "unsigned" and o["bits"] != 64 and o["retype"] == "unsigned" and o["re"] == o["bin"]:
+            if o["type"] == "unsigned" and o["bits"] != 64 and o.get("retype") == "unsigned" and o.get("re") == o["bin"]:
                 key = "c08_sized_unsigned_export_drops_width"
-            if o["type"] == "float32" and o["retype"] == "float32":
+            if o["type"] == "float32" and o.get("retype") == "float32":
                 key = "c08_float32_export_20_decimals"
             text = "import(export(%r)) = %s/%s/%s, expected %s/%s/%s (exported text %r)" % (
                 s, o.get("retype"), o.get("rebits"), o.get("re") or o.get("reerr"), o["type"], o["bits"], o["bin"], o.get("str"))
@@ -219,6 +219,21 @@ def run(res, a):
         mm = re.fullmatch(r"([0-9]+)'b([01]+)", vb)
         if not mm or int(mm.group(1)) != o["bits"] or len(mm.group(2)) != o["bits"]:
             viol.append(("verilog", "ExportVerilogBinary of %r is %r for a %d-bit number" % (s, vb, o["bits"]), s))
+    # fixed point literals against an independent reading: 0fp<s.f>v with v = k / 2^f denotes the s-bit pattern of k
+    fx = []
+    for (sb, fb) in [(6, 2), (8, 4), (12, 4), (16, 8), (24, 8), (32, 16)]:
+        for _ in range(6 if a.tier == "quick" else 60):
+            k = rnd.randrange(1 << (sb - 1))
+            fx.append((sb, fb, k, "0fp<%d.%d>%s" % (sb, fb, repr(k / (1 << fb)))))
+    fout = C.jsonl(C.sh([C.BMH, "c08", "-types", DYN_TYPES + ",fps6f2,fps8f4,fps12f4,fps24f8"],
+                        input="".join(json.dumps({"op": "import", "s": t[3], "n": t[0]}) + "\n" for t in fx), timeout=600).stdout)
+    for (sb, fb, k, lit), o in zip(fx, fout):
+        res.count_case({"s": lit}, nontrivial=True)
+        want = format(k, "0%db" % sb)
+        if o.get("err"):
+            viol.append(("fixedpoint", "fixed point literal %r is rejected: %s" % (lit, o["err"]), lit))
+        elif o.get("bin", "").zfill(sb)[-sb:] != want or (o.get("bits") not in (sb, None)):
+            viol.append(("fixedpoint", "fixed point literal %r (= %d / 2^%d) imports as %s bits %s, expected %s" % (lit, k, fb, o.get("bits"), o.get("bin"), want), lit))
     mism_num = []
     if not broken_translation:
         rows = []
